@@ -21,7 +21,7 @@ def shipped_tables(rng, n):
     if n >= len(ts):
         return ts
     keep = [t for t in ts if os.path.basename(t) in ("en-us-g2.ctb", "en-ueb-g2.ctb", "de-g2.ctb", "fr-bfu-g2.ctb", "en-us-comp8.ctb",
-                                                      "hu-hu-g2.ctb", "ko-g2.ctb", "zh-tw.ctb", "nemeth.ctb", "cy-cy-g2.ctb")]
+                                                      "hu-hu-g2.ctb", "ko-g2.ctb", "zh-tw.ctb", "nemeth.ctb", "cy-cy-g2.ctb", "ms-my-g2.ctb")]
     rest = [t for t in ts if t not in keep]
     rng.shuffle(rest)
     return (keep + rest)[:n]
@@ -61,6 +61,72 @@ def table_stages(path, seen=None):
             out |= table_stages(os.path.join(os.path.dirname(path), w[1]), seen)
     _STAGES[path] = out
     return out
+
+
+_SPECIALS = {}
+SPECIAL_OPCODES = ("joinword", "joinnum", "largesign", "contraction", "nocont", "compbrl", "literal", "repword", "rependword", "repeated",
+                   "replace", "syllable", "lowword", "sufword", "prfword", "partword", "exactdots", "comp6", "noletsign", "hyphen",
+                   "begnum", "midnum", "endnum", "decpoint")
+
+
+def special_operands(path, seen=None, limit=400):
+    """character operands of the rules with opcodes that have handlers of their own in the translators (they rewind, insert,
+    join, skip ...), read from the table text with includes followed; a generator aid: inputs are built around these strings
+    because the handlers only run where they occur"""
+    path = str(path)
+    if seen is None and path in _SPECIALS:
+        return _SPECIALS[path]
+    top = seen is None
+    seen = seen if seen is not None else set()
+    out = []
+    if path in seen or not os.path.exists(path):
+        return out
+    seen.add(path)
+    try:
+        text = open(path, encoding="utf-8", errors="replace").read()
+    except OSError:
+        return out
+    for line in text.splitlines():
+        w = line.split()
+        if not w or w[0].startswith("#"):
+            continue
+        if w[0] in ("nofor", "noback", "nocross") and len(w) > 1:
+            w = w[1:]
+        if w[0] in SPECIAL_OPCODES and len(w) > 1 and len(out) < limit:
+            sp = w[1].replace("\\s", " ")
+            if "\\" not in sp and 0 < len(sp) <= 8:
+                out.append((w[0], [ord(c) for c in sp if ord(c) < 0x10000]))
+        elif w[0] == "include" and len(w) > 1:
+            out += special_operands(os.path.join(os.path.dirname(path), w[1]), seen, limit)
+    if top:
+        _SPECIALS[path] = out
+    return out
+
+
+def gen_around_specials(rng, specials, filler):
+    """a short input with one or two of the table's special strings among ordinary words: directly followed by a letter, by a
+    blank and a word, at the very end, doubled with a hyphen (what repeated-word rules look for)"""
+    word = lambda: [rng.choice(filler) for _ in range(rng.range(1, 4))]
+    out = []
+    for _ in range(rng.range(1, 2)):
+        op, sp = rng.choice(specials)
+        k = rng.below(6)
+        if k == 0:
+            out += sp + [32] + word()
+        elif k == 1:
+            out += word() + [32] + sp + word()
+        elif k == 2:
+            out += word() + sp
+        elif k == 3:
+            u = word()
+            out += word() + u + sp + u          # xab-ab: the part behind the separator repeats the end of the part before it
+        elif k == 4:
+            out += sp + sp + [32] + sp
+        else:
+            out += word() + [32] + sp
+        if rng.chance(0.5):
+            out += [32]
+    return out[:40]
 
 
 def multistage_tables(direction="fwd", least=2):
